@@ -2,13 +2,15 @@
 # sweep_seeded.sh [ids...] : run every quick check against every seeded change,
 # each applied to its own scratch worktree (VERIF_REPO), never to /repo.
 # Prints one line per (seeded change, property): exit code and violation keys.
-cd /verif || exit 2
+# Works from wherever this script lives (/verif or a snapshot copy of it).
+HOME_DIR=$(cd "$(dirname "$0")/.." && pwd -P) || exit 2
+cd "$HOME_DIR" || exit 2
 IDS=${@:-$(ls seeded | grep '^S')}
 for id in $IDS; do
   wt=/tmp/sweep-$id
   git -C /repo worktree remove --force $wt 2>/dev/null
   git -C /repo worktree add -q --detach $wt HEAD || continue
-  if ! git -C $wt apply /verif/seeded/$id/patch.diff; then echo "$id: patch does not apply"; git -C /repo worktree remove --force $wt; continue; fi
+  if ! git -C $wt apply "$HOME_DIR/seeded/$id/patch.diff"; then echo "$id: patch does not apply"; git -C /repo worktree remove --force $wt; continue; fi
   for p in C06 C07 C10 C11 C12; do
     out=$(VERIF_REPO=$wt bin/check $p --no-evidence --no-minimise 2>&1); rc=$?
     keys=$(echo "$out" | grep -E "^violation:" | sed -E 's/^violation: ([^ ]+( <-> [^ ]+)?).*/\1/' | cut -c1-110 | sort -u | tr '\n' ';')
@@ -16,5 +18,5 @@ for id in $IDS; do
     echo "$id $p exit=$rc trouble=$tr $keys"
   done
   git -C /repo worktree remove --force $wt
-  rm -f /verif/replays/*.json
+  rm -f "$HOME_DIR"/replays/*.json
 done
